@@ -47,6 +47,32 @@ fn codes(w: &[u32]) -> String {
 }
 
 impl P {
+    /// the operand programs (one level down)
+    pub fn children(&self) -> Vec<Rc<P>> {
+        match self {
+            P::Comp(a) | P::Star(a) | P::Plus(a) | P::Opt(a) | P::Pow(a, _) | P::Loop(a, _, _) | P::LoopInf(a, _) | P::MkLoop(a, _, _) => vec![a.clone()],
+            P::Concat(a, b) | P::Union(a, b) | P::Inter(a, b) | P::Diff(a, b) => vec![a.clone(), b.clone()],
+            P::ConcatL(v) | P::UnionL(v) | P::InterL(v) => v.clone(),
+            P::DiffL(a, v) => {
+                let mut r = vec![a.clone()];
+                r.extend(v.iter().cloned());
+                r
+            }
+            _ => vec![],
+        }
+    }
+    /// all proper sub-programs, outermost first
+    pub fn subprograms(&self) -> Vec<Rc<P>> {
+        let mut out: Vec<Rc<P>> = vec![];
+        let mut todo = self.children();
+        while let Some(c) = todo.pop() {
+            if !out.iter().any(|x| **x == *c) {
+                todo.extend(c.children());
+                out.push(c);
+            }
+        }
+        out
+    }
     pub fn show(&self) -> String {
         fn list(v: &[Rc<P>]) -> String {
             v.iter().map(|p| p.show()).collect::<Vec<_>>().join(",")
